@@ -36,6 +36,8 @@ def _is_send_of(node, cls: str, **kw) -> bool:
 
 
 def run(ctx: Ctx) -> None:
+    if getattr(ctx, "_depth", 0) >= 2:
+        return  # alias of an alias: not followed (breaks import cycles between rule modules)
     repo = ctx.repo
     ctx.rule("C06.R1", "start_next_cycle() runs only when the worker is not terminating and both h11 sides are DONE; every path of _maybe_recycle ends by recycling (Updated(idle=True)) or by closing (Closed)", floor=3)
     ctx.rule("C06.R2", "the final response carries connection: close exactly when keep_alive_requests >= keep_alive_max_requests; the counter is incremented by one, once per created stream", floor=4)
